@@ -41,13 +41,21 @@ package gabi
 //@ # values decoded from JSON are never negative (big.Int.UnmarshalJSON refuses a minus sign, SetBytes is unsigned)
 //@ pred nonnegD(p) := forall k in dom(p.ADisclosed) :: p.ADisclosed[k] != nil ==> val(p.ADisclosed[k]) >= 0
 
+//@ # the two products of the verifier's reconstruction of Z-hat: disclosed attributes (large ones hashed) on top of A^(2^(le-1)), and the responses
+//@ mapfold znum(p, pk, k) := pow(val(pk.R[k]), msgval(p.ADisclosed[k], pk), val(pk.N)) op mul from pow(val(p.A), pow2(pk.Params.Le - 1), val(pk.N))
+//@ mapfold zresp(p, pk, k) := powsigned(val(pk.R[k]), val(p.AResponses[k]), val(pk.N)) op mul
+//@ # Z-hat as the verifier reconstructs it from a disclosure proof: (Z / znum)^(-c) * A^e-response * prod R_i^(response_i) * S^(v-response) mod N
+//@ pred zhat(p, pk) := rem(prod(prod(prod(powsigned(prod(val(pk.Z), inv(znum(p, pk, p.ADisclosed), val(pk.N))), 0 - val(p.C), val(pk.N)), powsigned(val(p.A), val(p.EResponse), val(pk.N))), zresp(p, pk, p.AResponses)), powsigned(val(pk.S), val(p.VResponse), val(pk.N))), val(pk.N))
 //@ func (*ProofD).reconstructZ
 //@   property C01 C02 C08
 //@   requires p != nil && wfpk(pk) && nonnegD(p)
 //@   ensures checked: err == nil ==> structD(p, pk) && result0 != nil && fresh(result0)
 //@   ensures fail: err != nil ==> result0 == nil
+//@   ensures[C01] zhat: err == nil ==> val(result0) == old(zhat(p, pk))
 //@   modifies nothing
 //@   mustfail canary: err != nil
+//@   loop 0 invariant numerator != nil && fresh(numerator) && val(numerator) == old(znum(p, pk))
+//@   loop 1 invariant Rs != nil && fresh(Rs) && val(Rs) == old(zresp(p, pk))
 
 //@ func (*ProofD).revocationAttrIndex
 //@   property C11 C08
@@ -154,6 +162,7 @@ package gabi
 //@   requires p != nil && wfpk(pk) && nonnegD(p)
 //@   ensures cacheinv: err == nil && p.RangeProofs != nil ==> rangecache(p, pk)
 //@   ensures struct: err == nil ==> structD(p, pk) && len(result0) >= 2 && result0[0] == p.A
+//@   ensures[C01] zcontrib: err == nil ==> val(result0[1]) == old(zhat(p, pk))
 //@   ensures nonnil1: err == nil && p.RangeProofs == nil ==> forall i in 0..len(result0) :: result0[i] != nil
 //@   ensures nonnil2: err == nil && p.RangeProofs != nil ==> forall i in 0..len(result0) :: result0[i] != nil
 //@   ensures hidden: err == nil ==> forall idx in dom(p.RangeProofs) :: in(p.AResponses, idx)
@@ -176,8 +185,10 @@ package gabi
 //@   loop 4 invariant (forall k in dom(p.AResponses) :: k <= maxAttribute) && forall idx in dom(p.cachedRangeStructures) :: idx < index ==> forall i in 0..len(p.cachedRangeStructures[idx]) :: rpchecked(p.cachedRangeStructures[idx][i], p.RangeProofs[idx][i], pk)
 //@   loop 4 invariant in(p.cachedRangeStructures, index) && structures == p.cachedRangeStructures[index] && index >= 0 && index <= maxAttribute && forall j in 0..$i :: rpchecked(structures[j], p.RangeProofs[index][j], pk)
 //@   loop 3 invariant fresh(l) && index >= 0 && index <= maxAttribute + 1 && maxAttribute < len(pk.R) && len(l) >= 2 && l[0] == p.A && forall j in 0..len(l) :: l[j] != nil
+//@   loop 3 invariant val(l[1]) == old(zhat(p, pk))
 //@   loop 3 modifies elems(l), onlyfresh("BV")
 //@   loop 4 invariant fresh(l) && 0 <= $i && $i <= len(structures) && len(l) >= 2 && l[0] == p.A && forall j in 0..len(l) :: l[j] != nil
+//@   loop 4 invariant val(l[1]) == old(zhat(p, pk))
 //@   loop 4 modifies elems(l), onlyfresh("BV")
 //@   mustfail canary: err != nil
 
@@ -202,7 +213,10 @@ package gabi
 //@   ghost at createChallenge flag: $3
 //@   ghost at createChallenge ctx: ref($0)
 //@   ghost at createChallenge nonce: ref($1)
+//@   ghost at createChallenge abase: ref($2[0])
+//@   ghost at createChallenge zval: val($2[1])
 //@   ensures session: result ==> val(p.C) == ghost(chal) && ghost(flag) == b2i(issig) && ghost(ctx) == ref(context) && ghost(nonce) == ref(nonce1)
+//@   ensures[C01] bound: result ==> ghost(abase) == ref(p.A) && ghost(zval) == old(zhat(p, pk))
 //@   modifies p.cachedRangeStructures, p.NonRevocationProof.Nu, p.NonRevocationProof.Challenge, mapof(p.NonRevocationProof.Responses), p.NonRevocationProof.SignedAccumulator.Accumulator, p.NonRevocationProof.acc, heap("rangeproof.Proof.MResponse")
 //@   mustfail canary: !result
 
